@@ -40,7 +40,7 @@ impl Report {
     pub fn print(&self, name: &str, rule: &str) {
         let mut fails = self.fails.clone();
         fails.sort();
-        for (key, detail) in fails.iter().take(40) {
+        for (key, detail) in fails.iter().take(5000) {
             println!("FAIL {{\"search\":{},\"key\":{},\"detail\":{}}}", jstr(name), jstr(key), jstr(detail));
         }
         let hist: Vec<String> = self.hist.iter().map(|(k, v)| format!("{}:{}", jstr(k), v)).collect();
